@@ -484,7 +484,10 @@ pub fn gen_history_ex(rng: &mut impl rand::RngCore, depth: usize, len: usize, al
                 30..=44 => TOp::Delete(gen_pos(rng, cap, mark, wide, true)),
                 45..=59 => TOp::Append(gen_leaf(rng)),
                 60..=89 => gen_range(rng, cap, mark, wide, bulk_limit),
-                90..=93 => TOp::Reset,
+                90..=92 => TOp::Reset,
+                // the persistent backend must keep following the ideal tree after being closed and reopened
+                93..=95 if persistent => TOp::Reopen,
+                93 => TOp::Reset,
                 _ => TOp::ComputeRoot,
             },
             Alphabet::Batch => match r {
@@ -833,7 +836,9 @@ pub fn run_history(rep: &mut Rep, cfg: &MonCfg, sut: &mut dyn Sut, ops: &[TOp], 
                     break 'obs;
                 }
             }
-            let levels: Vec<usize> = if depth <= 5 { (0..=depth).collect() } else { vec![0, 1, depth / 2, depth - 1, depth] };
+            // all levels for small trees; otherwise the extremes plus two levels that change from observation to
+            // observation (so that over a run every level is looked at)
+            let levels: Vec<usize> = if depth <= 5 { (0..=depth).collect() } else { vec![0, 1, 2 + (k + i) % (depth - 3), 2 + (k * 7 + i * 3 + 1) % (depth - 3), depth - 1, depth] };
             for n in levels {
                 match sut.subtree(n, i) {
                     Ok(Some(v)) => {
